@@ -228,6 +228,19 @@ def main(tier):
                  (at_create, later))
     red.set_loky_pickler(None)
 
+    # ---- (5) on real processes: pickler at submit time == pickler the worker uses ------------
+    from ..real import runner
+    r = runner.run("pickler_at_submit", {}, None, timeout=90)
+    if r["status"] != "ok" or not r["result"] or "cases" not in r["result"]:
+        viol("R:pickler-scenario-failed", f"{r['status']} {r['result']} {r['stdio'][-300:]}", ())
+    else:
+        for at_submit, later, gap, used in r["result"]["cases"]:
+            n += 1
+            if used != at_submit:
+                viol(f"R:worker-pickler:{at_submit}->{used}",
+                     f"task submitted under {at_submit!r}, parent switched to {later!r} "
+                     f"{gap} s later: the worker used {used!r}", (at_submit, later, gap))
+
     rep.coverage = dict(
         evaluations=n, distinct_nontrivial=states + len(callables()) * 2 + 9, samples=samples or [{}],
         histories=states, history_depth=depth, exhaustive=True,
@@ -235,7 +248,7 @@ def main(tier):
              "classes} replayed on the real reduction module, registries snapshotted after every "
              "operation; every built-in-reducer object kind under both back-ends; the 2x2 "
              "executor reducer wiring; the 2x2 pickler-at-creation / pickler-later product")
-    rep.assumptions = ["worker-side use of the recorded pickler on real processes is not part of this check"]
+    rep.assumptions = ["the worker-side clause is exercised on real processes for 4 pickler pairs x 3 delays"]
     code = rep.finish()
     print(f"[C15] tier={tier} operations={n} histories={states} violations={len(rep.violations)}")
     return code
